@@ -87,7 +87,7 @@ def main():
         copy_repo(base); copy_repo(pat)
         rc, out = sh(f"git apply --whitespace=nowarn {seed}/patch.diff", cwd=pat)
         if rc != 0:
-            rc, out = sh(f"patch -p1 --no-backup-if-mismatch < {seed}/patch.diff", cwd=pat)
+            rc, out = sh(f"patch -p1 --fuzz=3 --no-backup-if-mismatch < {seed}/patch.diff", cwd=pat)
         meta["patch_applies"] = rc == 0
         if rc != 0:
             meta["error"] = out[-800:]
